@@ -32,6 +32,10 @@ func tableLayout(context *layoutContext, table_ bo.TableBoxITF, bottomSpace pr.F
 		borderSpacingX, borderSpacingY = tmp[0].Value, tmp[1].Value
 	}
 
+	// Columns in which no cell originates take no border spacing,
+	// see tableAndColumnsPreferredWidths
+	originating := originatingColumns(table, len(columnWidths))
+
 	table.ColumnPositions = nil
 	positionX := table.ContentBoxX()
 	rowsLeftX := positionX + borderSpacingX
@@ -39,8 +43,10 @@ func tableLayout(context *layoutContext, table_ bo.TableBoxITF, bottomSpace pr.F
 	if table.Style.GetDirection() == "ltr" {
 		positionX := table.ContentBoxX()
 		rowsX := positionX + borderSpacingX
-		for _, width := range columnWidths {
-			positionX += borderSpacingX
+		for i, width := range columnWidths {
+			if originating[i] {
+				positionX += borderSpacingX
+			}
 			table.ColumnPositions = append(table.ColumnPositions, positionX)
 			positionX += width
 		}
@@ -48,8 +54,10 @@ func tableLayout(context *layoutContext, table_ bo.TableBoxITF, bottomSpace pr.F
 	} else {
 		positionX := table.ContentBoxX() + table.Width.V()
 		rowsX := positionX - borderSpacingX
-		for _, width := range columnWidths {
-			positionX -= borderSpacingX
+		for i, width := range columnWidths {
+			if originating[i] {
+				positionX -= borderSpacingX
+			}
 			positionX -= width
 			table.ColumnPositions = append(table.ColumnPositions, positionX)
 		}
@@ -164,9 +172,9 @@ func tableLayout(context *layoutContext, table_ bo.TableBoxITF, bottomSpace pr.F
 				cell.MarginLeft = pr.Float(0)
 				cell.Width = pr.Float(0)
 				bordersPlusPadding := cell.BorderWidth() // with width==0
-				// TODO: we should remove the number of columns with no
-				// originating cells to cell.colspan, see testLayoutTableAuto49
-				width := borderSpacingX*pr.Float(cell.Colspan-1) - bordersPlusPadding
+				// Spanned columns with no originating cells take no border
+				// spacing, see testLayoutTableAuto49
+				width := borderSpacingX*pr.Float(innerSpacings(originating, cell.GridX, cell.Colspan)) - bordersPlusPadding
 				for _, sw := range spannedWidths {
 					width += sw
 				}
@@ -771,6 +779,35 @@ func tableLayout(context *layoutContext, table_ bo.TableBoxITF, bottomSpace pr.F
 	return table_, blockLayout{resumeAt: resumeAt, nextPage: nextPage, adjoiningMargins: nil, collapsingThrough: false}
 }
 
+// Return, for each of the first nbColumns columns of the grid, whether
+// a cell originates in it. A column with no originating cell only exists
+// because a cell of a previous column spans it: it takes no border spacing.
+func originatingColumns(table *bo.TableBox, nbColumns int) []bool {
+	out := make([]bool, nbColumns)
+	for _, rowGroup := range table.Children {
+		for _, row := range rowGroup.Box().Children {
+			for _, cell := range row.Box().Children {
+				if x := cell.Box().GridX; x < nbColumns {
+					out[x] = true
+				}
+			}
+		}
+	}
+	return out
+}
+
+// Return the number of border spacings inside a cell starting
+// at column start and spanning span columns.
+func innerSpacings(originating []bool, start, span int) int {
+	nb := 0
+	for i := start + 1; i < start+span && i < len(originating); i++ {
+		if originating[i] {
+			nb++
+		}
+	}
+	return nb
+}
+
 // Increase the top padding of a box. This also translates the children.
 func addTopPadding(box *bo.BoxFields, extraPadding pr.Float) {
 	box.PaddingTop = box.PaddingTop.V() + extraPadding
@@ -801,6 +838,14 @@ func fixedTableLayout(box *bo.BoxFields) {
 		sum += cell.Box().Colspan
 	}
 	numColumns := utils.MaxInt(len(allColumns), sum)
+	// Columns in which no cell originates take no border spacing
+	originating := originatingColumns(table, numColumns)
+	numSpacedColumns := 0
+	for _, o := range originating {
+		if o {
+			numSpacedColumns++
+		}
+	}
 	// ``None`` means not know yet.
 	columnWidths := make([]pr.MaybeFloat, numColumns)
 
@@ -825,7 +870,7 @@ func fixedTableLayout(box *bo.BoxFields) {
 		resolvePercentagesBox(cell_, &table.BoxFields, 0)
 		if cell.Width != pr.AutoF {
 			width := cell.BorderWidth()
-			width -= borderSpacingX * pr.Float(cell.Colspan-1)
+			width -= borderSpacingX * pr.Float(innerSpacings(originating, i, cell.Colspan))
 			// In the general case, this width affects several columns (through
 			// colspan) some of which already have a width. Subtract these
 			// known widths and divide among remaining columns.
@@ -849,7 +894,7 @@ func fixedTableLayout(box *bo.BoxFields) {
 
 	// Distribute the remaining space equally on columns that do not have
 	// a width yet.
-	allBorderSpacing := borderSpacingX * pr.Float(numColumns+1)
+	allBorderSpacing := borderSpacingX * pr.Float(numSpacedColumns+1)
 	var columnsWithoutWidth []int
 	minTableWidth := allBorderSpacing
 	for i, w := range columnWidths {
